@@ -278,6 +278,34 @@ impl tokio_modbus::server::Service for TableService {
     }
 }
 
+/// Per-process server context: one runtime and one listener per server flavour, reused by all
+/// cases (binding a fresh port per case exhausts the ephemeral port range).
+pub struct SrvCtx {
+    rt: tokio::runtime::Runtime,
+    tcp: Option<(tokio_modbus::server::tcp::Server, std::net::SocketAddr)>,
+    rtu: Option<(tokio_modbus::server::rtu_over_tcp::Server, std::net::SocketAddr)>,
+}
+
+impl SrvCtx {
+    fn new() -> Self {
+        let rt = tokio::runtime::Builder::new_current_thread().enable_all().build().unwrap();
+        SrvCtx { rt, tcp: None, rtu: None }
+    }
+    fn ensure(&mut self) {
+        if self.tcp.is_none() {
+            let (a, b) = self.rt.block_on(async {
+                let l1 = tokio::net::TcpListener::bind("127.0.0.1:0").await.unwrap();
+                let a1 = l1.local_addr().unwrap();
+                let l2 = tokio::net::TcpListener::bind("127.0.0.1:0").await.unwrap();
+                let a2 = l2.local_addr().unwrap();
+                ((tokio_modbus::server::tcp::Server::new(l1), a1), (tokio_modbus::server::rtu_over_tcp::Server::new(l2), a2))
+            });
+            self.tcp = Some(a);
+            self.rtu = Some(b);
+        }
+    }
+}
+
 fn finish_trace(shared: &Arc<Mutex<Shared>>, timed_out: bool) -> String {
     let s = shared.lock().unwrap();
     let mut out: Vec<String> = vec![];
@@ -307,7 +335,7 @@ fn finish_trace(shared: &Arc<Mutex<Shared>>, timed_out: bool) -> String {
     out.join(",")
 }
 
-fn run_srv(tokens: &[&str]) -> String {
+fn run_srv(ctx: &mut SrvCtx, tokens: &[&str]) -> String {
     let [proto, r, w, f, sv] = tokens else {
         return "ERR srv".into();
     };
@@ -325,11 +353,11 @@ fn run_srv(tokens: &[&str]) -> String {
         s.self_wake = true;
         s.notify = Some(notify.clone());
     }
-    let rt = tokio::runtime::Builder::new_current_thread().enable_all().build().unwrap();
+    ctx.ensure();
     let slot = Arc::new(Mutex::new(Some(tr)));
-    let trace = rt.block_on(async {
-        let listener = tokio::net::TcpListener::bind("127.0.0.1:0").await.unwrap();
-        let addr = listener.local_addr().unwrap();
+    let addr = if *proto == "tcp" { ctx.tcp.as_ref().unwrap().1 } else { ctx.rtu.as_ref().unwrap().1 };
+    let (tcp_server, rtu_server) = (&ctx.tcp.as_ref().unwrap().0, &ctx.rtu.as_ref().unwrap().0);
+    let trace = ctx.rt.block_on(async {
         let sh2 = shared.clone();
         let on_err = move |e: io::Error| {
             let mut s = sh2.lock().unwrap();
@@ -364,30 +392,162 @@ fn run_srv(tokens: &[&str]) -> String {
         };
         let timed_out = match *proto {
             "tcp" => {
-                let server = tokio_modbus::server::tcp::Server::new(listener);
                 tokio::select! {
-                    _ = server.serve(&on_connected, on_err) => false,
+                    _ = tcp_server.serve(&on_connected, on_err) => false,
                     t = driver => t,
                 }
             }
             "rtu" => {
-                let server = tokio_modbus::server::rtu_over_tcp::Server::new(listener);
                 tokio::select! {
-                    _ = server.serve(&on_connected, on_err) => false,
+                    _ = rtu_server.serve(&on_connected, on_err) => false,
                     t = driver => t,
                 }
             }
             _ => false,
         };
-        // snapshot before the runtime (and with it a still-waiting connection task) is dropped
+        // snapshot while a still-waiting connection task is alive (it stays parked in the runtime)
         finish_trace(&shared, timed_out)
     });
-    drop(rt);
     trace
 }
 
+
 // ---------------------------------------------------------------------------------------------
-fn run_line(line: &str, errno: Option<i32>) -> String {
+// accept loop: ACCEPT <proto> <goodhex> <badhex> <events>   events: s | b | r | e:<Kind> | a
+// ---------------------------------------------------------------------------------------------
+fn run_accept(tokens: &[&str]) -> String {
+    let [proto, good, bad, evs] = tokens else {
+        return "ERR accept".into();
+    };
+    let (Some(good), Some(bad)) = (unhex(good), unhex(bad)) else {
+        return "ERR accepthex".into();
+    };
+    let events: Vec<String> = evs.split(',').map(|s| s.to_string()).collect();
+    let rt = tokio::runtime::Builder::new_current_thread().enable_all().build().unwrap();
+    let notify = Arc::new(tokio::sync::Notify::new());
+    let conns: Arc<Mutex<Vec<Arc<Mutex<Shared>>>>> = Arc::new(Mutex::new(vec![]));
+    let setups = Arc::new(AtomicUsize::new(0));
+    let reports = Arc::new(AtomicUsize::new(0));
+    let out = rt.block_on(async {
+        let listener = tokio::net::TcpListener::bind("127.0.0.1:0").await.unwrap();
+        let addr = listener.local_addr().unwrap();
+        let rep2 = reports.clone();
+        let n2 = notify.clone();
+        let on_err = move |_e: io::Error| {
+            rep2.fetch_add(1, Ordering::SeqCst);
+            n2.notify_one();
+        };
+        let (evs2, conns2, setups2, n3) = (events.clone(), conns.clone(), setups.clone(), notify.clone());
+        let on_connected = move |_stream: tokio::net::TcpStream, _addr: std::net::SocketAddr| {
+            let i = setups2.fetch_add(1, Ordering::SeqCst);
+            let ev = evs2.get(i).cloned().unwrap_or_else(|| "r".into());
+            let res: io::Result<Option<(TableService, Transport)>> = if ev == "s" || ev == "b" {
+                let tr = Transport::new();
+                let sh = tr.0.clone();
+                {
+                    let mut g = sh.lock().unwrap();
+                    g.rq.push_back(Rev::Data(if ev == "s" { good.clone() } else { bad.clone() }));
+                    if ev == "s" {
+                        g.rq.push_back(Rev::Eof);
+                    }
+                    g.self_wake = true;
+                    g.notify = Some(n3.clone());
+                }
+                conns2.lock().unwrap().push(sh.clone());
+                Ok(Some((TableService { table: vec![], idx: AtomicUsize::new(0), shared: sh }, tr)))
+            } else if ev == "r" {
+                Ok(None)
+            } else if let Some(k) = ev.strip_prefix("e:") {
+                Err(io::Error::new(parse_kind(k).unwrap_or(io::ErrorKind::Other), "scripted setup failure"))
+            } else {
+                Ok(None)
+            };
+            n3.notify_one();
+            async move { res }
+        };
+        let (tx, rx) = tokio::sync::oneshot::channel::<()>();
+        let abort = Box::pin(async move {
+            let _ = rx.await;
+        });
+        let driver = async {
+            let mut keep = vec![];
+            let mut tx = Some(tx);
+            for (i, ev) in events.iter().enumerate() {
+                if ev == "a" {
+                    if let Some(t) = tx.take() {
+                        let _ = t.send(());
+                    }
+                    // serve_until should now return; wait (bounded) for the select to finish
+                    tokio::time::sleep(Duration::from_secs(20)).await;
+                    return "HUNG".to_string();
+                }
+                let c = tokio::net::TcpStream::connect(addr).await.unwrap();
+                keep.push(c);
+                let ok = tokio::time::timeout(Duration::from_secs(20), async {
+                    loop {
+                        let done = if ev == "s" || ev == "b" {
+                            let cs = conns.lock().unwrap();
+                            setups.load(Ordering::SeqCst) > i
+                                && cs.last().map_or(false, |s| {
+                                    let g = s.lock().unwrap();
+                                    g.log.iter().any(|e| matches!(e, Log::Dropped)) || g.starved
+                                })
+                        } else {
+                            setups.load(Ordering::SeqCst) > i
+                        };
+                        if done {
+                            break;
+                        }
+                        notify.notified().await;
+                    }
+                })
+                .await;
+                if ok.is_err() {
+                    return "HUNG".to_string();
+                }
+                if ev.starts_with("e:") {
+                    tokio::time::sleep(Duration::from_secs(20)).await;
+                    return "HUNG".to_string();
+                }
+            }
+            "LISTENING".to_string()
+        };
+        let end = match *proto {
+            "tcp" => {
+                let server = tokio_modbus::server::tcp::Server::new(listener);
+                tokio::select! {
+                    r = server.serve_until(&on_connected, on_err, abort) => match r {
+                        Ok(tokio_modbus::server::Terminated::Aborted) => "ABORTED".to_string(),
+                        Ok(tokio_modbus::server::Terminated::Finished) => "FINISHED".to_string(),
+                        Err(e) => format!("E:{}", show_kind(e.kind())),
+                    },
+                    d = driver => d,
+                }
+            }
+            _ => {
+                let server = tokio_modbus::server::rtu_over_tcp::Server::new(listener);
+                tokio::select! {
+                    r = server.serve_until(&on_connected, on_err, abort) => match r {
+                        Ok(tokio_modbus::server::Terminated::Aborted) => "ABORTED".to_string(),
+                        Ok(tokio_modbus::server::Terminated::Finished) => "FINISHED".to_string(),
+                        Err(e) => format!("E:{}", show_kind(e.kind())),
+                    },
+                    d = driver => d,
+                }
+            }
+        };
+        let served = conns.lock().unwrap().iter().filter(|s| s.lock().unwrap().log.iter().any(|e| matches!(e, Log::Dropped))).count();
+        format!("served={} reports={} {}", served, reports.load(Ordering::SeqCst), end)
+    });
+    drop(rt);
+    if PANICKED.load(Ordering::SeqCst) {
+        return format!("{out} PANIC");
+    }
+    out
+}
+
+// ---------------------------------------------------------------------------------------------
+fn run_line(ctx: &mut SrvCtx, line: &str, errno: Option<i32>) -> String {
     let t: Vec<&str> = line.split(' ').collect();
     match t[0] {
         "DREQ" => unhex(t[1]).map_or("ERR hex".into(), |b| show_io(&Request::try_from(Bytes::from(b)), |r| show_req(r))),
@@ -416,7 +576,8 @@ fn run_line(line: &str, errno: Option<i32>) -> String {
             format!("{} {} {} {}", hex(format!("{s}").as_bytes()), b(s.is_broadcast()), b(s.is_single_device()), b(s.is_reserved()))
         }),
         "CLI" => run_cli(&t[1..], errno),
-        "SRV" => run_srv(&t[1..]),
+        "SRV" => run_srv(ctx, &t[1..]),
+        "ACCEPT" => run_accept(&t[1..]),
         _ => "ERR cmd".into(),
     }
 }
@@ -433,9 +594,14 @@ fn main() {
         }
         i += 1;
     }
-    std::panic::set_hook(Box::new(|_| {
+    let verbose = std::env::var_os("VERIF_DEBUG").is_some();
+    std::panic::set_hook(Box::new(move |info| {
         PANICKED.store(true, Ordering::SeqCst);
+        if verbose {
+            eprintln!("panic: {info}");
+        }
     }));
+    let mut ctx = SrvCtx::new();
     let stdin = io::stdin();
     let stdout = io::stdout();
     let mut out = io::BufWriter::new(stdout.lock());
@@ -444,7 +610,7 @@ fn main() {
         PANICKED.store(false, Ordering::SeqCst);
         let base = LIVE.load(Ordering::Relaxed);
         PEAK.store(base, Ordering::Relaxed);
-        let res = catch_unwind(AssertUnwindSafe(|| run_line(&line, errno)));
+        let res = catch_unwind(AssertUnwindSafe(|| run_line(&mut ctx, &line, errno)));
         let peak = PEAK.load(Ordering::Relaxed).saturating_sub(base);
         let txt = match res {
             Ok(s) if !PANICKED.load(Ordering::SeqCst) || s.contains("PANIC") => s,
